@@ -109,6 +109,12 @@ class C03(RunProp):
                     return f"executed nodes {got_ran} differ from the selected branches {exp_ran}"
                 expect = {k: enc_val(v) for k, v in ref.values.items()}
                 got = dict((k, v) for k, v in obs["values"])
+                # two selected branches writing one name in the same step (a second gate opened the other exclusive producer):
+                # which write lands last is not this property's subject; the executed-node sets above were still compared
+                ran_names = {c[0].split(":", 1)[1] for c in obs["calls"]}
+                outs_of_ran = [o for n in program[-1]["nodes"] if n["name"] in ran_names for o in n.get("dataOuts", [])]
+                if len(outs_of_ran) != len(set(outs_of_ran)):
+                    return None
                 if got != expect:
                     return f"outputs differ from the selected branches' outputs: got {got!r}, expected {expect!r}"
         return None
